@@ -69,7 +69,9 @@ func FactsOf(fn *ssa.Function) *FuncFacts {
 					if ins, ok := c.(ssa.Instruction); ok {
 						db := ins.Block()
 						if db == b || !db.Dominates(b) {
-							delete(in, c)
+							if !pureOverDominating(c, b) {
+								delete(in, c)
+							}
 						}
 					}
 				}
@@ -82,6 +84,37 @@ func FactsOf(fn *ssa.Function) *FuncFacts {
 		}
 	}
 	return ff
+}
+
+// pureOverDominating: c is a comparison/negation (no memory access, no call) whose operands are
+// constants, parameters or values defined in blocks strictly dominating b — its truth does not depend
+// on where it was computed, so a fact about it stays meaningful in b.
+func pureOverDominating(c ssa.Value, b *ssa.BasicBlock) bool {
+	var ops []ssa.Value
+	switch x := c.(type) {
+	case *ssa.BinOp:
+		ops = []ssa.Value{x.X, x.Y}
+	case *ssa.UnOp:
+		if x.Op != token.NOT {
+			return false
+		}
+		ops = []ssa.Value{x.X}
+	default:
+		return false
+	}
+	for _, o := range ops {
+		switch y := o.(type) {
+		case *ssa.Const, *ssa.Parameter:
+		case ssa.Instruction:
+			db := y.Block()
+			if db == b || !db.Dominates(b) {
+				return false
+			}
+		default:
+			return false
+		}
+	}
+	return true
 }
 
 // closePhiFacts: the lowering of `a && b` / `a || b` yields a boolean phi with constant edges. A known
@@ -293,6 +326,15 @@ func sameValD(a, b ssa.Value, d int) bool {
 	bb, fb, ok2 := fieldLoad(b)
 	if ok1 && ok2 && fa == fb && fa != nil {
 		return sameValD(ba, bb, d-1)
+	}
+	// two calls of the same generated (pure, nil-safe) getter on the same receiver
+	if ca, ok := a.(*ssa.Call); ok {
+		if cb, ok := b.(*ssa.Call); ok {
+			cea, ceb := calleeOf(ca), calleeOf(cb)
+			if cea.Obj != nil && cea.Obj == ceb.Obj && isGeneratedGetter(cea) && len(ca.Common().Args) == 1 && len(cb.Common().Args) == 1 {
+				return sameValD(ca.Common().Args[0], cb.Common().Args[0], d-1)
+			}
+		}
 	}
 	if ca, ok := a.(*ssa.Const); ok {
 		if cb, ok := b.(*ssa.Const); ok {
